@@ -556,7 +556,13 @@ func (c *EvalCtx) evalCall(e *CallE) TV {
 		}
 		evalFail("len of %s", ExprString(e.Args[0]))
 	case "ite":
-		cnd := c.boolOf(c.eval(e.Args[0]), e.Args[0])
+		cnd := c.cur.Simp(c.boolOf(c.eval(e.Args[0]), e.Args[0]))
+		if cnd == True {
+			return c.eval(e.Args[1])
+		}
+		if cnd == False {
+			return c.eval(e.Args[2])
+		}
 		a, b := c.eval(e.Args[1]), c.eval(e.Args[2])
 		a, b = c.unify(a, b)
 		if a.C != nil {
@@ -804,7 +810,11 @@ func (c *EvalCtx) evalBinary(e *Binary) TV {
 	case "||":
 		return TV{V: Or(c.boolOf(c.eval(e.X), e.X), c.boolOf(c.eval(e.Y), e.Y)), T: types.Typ[types.Bool]}
 	case "==>":
-		return TV{V: Implies(c.boolOf(c.eval(e.X), e.X), c.boolOf(c.eval(e.Y), e.Y)), T: types.Typ[types.Bool]}
+		ante := c.cur.Simp(c.boolOf(c.eval(e.X), e.X))
+		if ante == False {
+			return TV{V: True, T: types.Typ[types.Bool]}
+		}
+		return TV{V: Implies(ante, c.boolOf(c.eval(e.Y), e.Y)), T: types.Typ[types.Bool]}
 	case "<==>":
 		return TV{V: Eq(c.boolOf(c.eval(e.X), e.X), c.boolOf(c.eval(e.Y), e.Y)), T: types.Typ[types.Bool]}
 	}
@@ -1035,13 +1045,45 @@ func expandBounded(t *Term) *Term {
 	return rec(t)
 }
 
+// upperBoundConst: a syntactic constant upper bound of an unsigned bit-vector term.
+func upperBoundConst(t *Term) (int64, bool) {
+	switch t.Op {
+	case "const":
+		if t.Val.IsInt64() {
+			return t.Val.Int64(), true
+		}
+	case "ite":
+		a, ok1 := upperBoundConst(t.Args[1])
+		b, ok2 := upperBoundConst(t.Args[2])
+		if ok1 && ok2 {
+			if a > b {
+				return a, true
+			}
+			return b, true
+		}
+	case "bvadd":
+		a, ok1 := upperBoundConst(t.Args[0])
+		b, ok2 := upperBoundConst(t.Args[1])
+		if ok1 && ok2 && a+b < 1<<30 {
+			return a + b, true
+		}
+	case "zero_extend":
+		return upperBoundConst(t.Args[0])
+	}
+	return 0, false
+}
+
 func boundOf(ante, b *Term) (int, bool) {
 	chk := func(a *Term) (int, bool) {
-		if a.Op == "bvult" && a.Args[0] == b && a.Args[1].IsConst() && a.Args[1].Val.IsInt64() {
-			return int(a.Args[1].Val.Int64()), true
+		if a.Op == "bvult" && a.Args[0] == b {
+			if n, ok := upperBoundConst(a.Args[1]); ok {
+				return int(n), true
+			}
 		}
-		if a.Op == "bvule" && a.Args[0] == b && a.Args[1].IsConst() && a.Args[1].Val.IsInt64() {
-			return int(a.Args[1].Val.Int64()) + 1, true
+		if a.Op == "bvule" && a.Args[0] == b {
+			if n, ok := upperBoundConst(a.Args[1]); ok {
+				return int(n) + 1, true
+			}
 		}
 		return 0, false
 	}
